@@ -20,10 +20,20 @@ type vpC09Result struct {
 // vpC09Ops: what one goroutine does with the shared tree: evaluate it with its
 // own runner and data, collect its fields, parse another text and format an
 // error for another source.
-func vpC09Ops(tree Expression, other []byte) vpC09Result {
-	var res vpC09Result
+func vpC09Ops(tree Expression, other []byte, withData bool) vpC09Result {
 	r := NewRunner()
-	r.SetThis(map[string]interface{}{"x": 2, "y": nil, "f": func(a, b interface{}) (int, error) { return 5, nil }, "st": vpPerson{Name: "n", Age: 3}, "tg": vpTagged{ID: 4}})
+	if withData {
+		r.SetThis(vpC09Data())
+	}
+	return vpC09OpsOn(r, tree, other)
+}
+
+func vpC09Data() map[string]interface{} {
+	return map[string]interface{}{"x": 2, "y": nil, "f": func(a, b interface{}) (int, error) { return 5, nil }, "st": vpPerson{Name: "n", Age: 3}, "tg": vpTagged{ID: 4}}
+}
+
+func vpC09OpsOn(r *Runner, tree Expression, other []byte) vpC09Result {
+	var res vpC09Result
 	v, err := r.Resolve(context.Background(), tree)
 	res.val, res.err = v, vpErrText2(err)
 	fs, ferr := ResolveReferenceFields(&SourceCode{Expression: tree})
@@ -67,7 +77,9 @@ func VP_C09_shared() {
 	}
 	// the text parsed concurrently by the other goroutine: a small pool (its byte-level
 	// behaviour is C08/parse's subject; multiplying both spaces would not add coverage)
-	other := []byte([]string{"1 +", "a.b(", "'x\r\n", "ok + 1"}[vpChoice("o", 4)])
+	other := []byte([]string{"1 +", "a.b(", "'x\r\n", "ok + 1", "1_000 + 2_0", "[1e1_0, 1_1.5_0, 'a\\x41']"}[vpChoice("o", 6)])
+	// each goroutine has its own runner; with its own data map, or without one (locals then live in the runner's own map)
+	withData := vpBool("withData")
 	vpFreezeGlobals()
 	vpFreeze("shared tree", tree)
 	// natively the goroutines run FIRST (a sequential warm-up would hide lazily initialised shared state)
@@ -82,16 +94,16 @@ func VP_C09_shared() {
 				defer wg.Done()
 				<-start
 				for it := 0; it < 20; it++ {
-					results[g] = vpC09Ops(tree, other)
+					results[g] = vpC09Ops(tree, other, withData)
 				}
 			}(g)
 		}
 		close(start)
 		wg.Wait()
 	}
-	seq := vpC09Ops(tree, other)
+	seq := vpC09Ops(tree, other, withData)
 	vpAssert("C09/shared/no-shared-write", vpWrites() == 0)
-	again := vpC09Ops(tree, other)
+	again := vpC09Ops(tree, other, withData)
 	vpAssert("C09/shared/repeatable", vpC09Same(seq, again))
 	same := true
 	if !vpSymbolic() {
